@@ -440,4 +440,29 @@ example : massName exampleTree 7 = .ok ['m', '_', '1', '2', '3', '4'] := by deci
 example : NoDoubleDecay (.node (-1) (.leaf 0) (.node 4 (.leaf 1) (.node 5 (.leaf 2) (.leaf 3)))) := by
   decide
 
+/-! ### registration histories (exception safety of `HelicityAdapter.register_topology`) -/
+
+open Ampverif.Model.Topology in
+/-- A REJECTED `register_topology` call (any error) leaves the registered set exactly as it was —
+for every history before it. (The code checks before it adds; the correspondence drives the real
+adapter through such histories and compares what stays registered and what `create_expressions()`
+then returns.) -/
+theorem C07_rejected_registration_is_noop (ts : List Topo) (t : Topo) (e : Err)
+    (h : registerTopology (registerHistory ts).1 t = .error e) :
+    registerHistory (ts ++ [t]) = ((registerHistory ts).1, (registerHistory ts).2 + 1) := by
+  unfold registerHistory at *
+  rw [List.foldl_append]
+  simp only [List.foldl_cons, List.foldl_nil]
+  rw [h]
+
+open Ampverif.Model.Topology in
+/-- an ACCEPTED call registers exactly what `register_topology` returns and counts no rejection -/
+theorem C07_accepted_registration (ts : List Topo) (t : Topo) (reg : List Topo)
+    (h : registerTopology (registerHistory ts).1 t = .ok reg) :
+    registerHistory (ts ++ [t]) = (reg, (registerHistory ts).2) := by
+  unfold registerHistory at *
+  rw [List.foldl_append]
+  simp only [List.foldl_cons, List.foldl_nil]
+  rw [h]
+
 end Ampverif.Props.C07
